@@ -101,6 +101,7 @@ ANCHOR = {'upart1': 0, 'upart2': 1, 'vpart1': 1, 'vpart2': 1}
 class SymNumerics(object):
     """quad -> fresh symbol (+ the integrand evaluated, at call time, at the harness' symbolic integration
     variable and at the last split point); brentq -> fresh root of the real root function."""
+    symbolic = True
 
     def __init__(self, m, probes, npieces, contract=True, edges=True):
         self.m, self.probes, self.np = m, probes, npieces
@@ -143,6 +144,7 @@ class SymNumerics(object):
 class RealNumerics(object):
     """spy around the real scipy quad / brentq (numeric replay): records the same things; `pert' adds a
     number to the value of one piece (numeric twin of d/d(stub symbol)); `zero' returns 0 for every integral."""
+    symbolic = False
 
     def __init__(self, m, probes, pert=None, zero=False):
         from scipy.integrate import quad
@@ -175,14 +177,36 @@ class RealNumerics(object):
         return (val, 0.0)
 
 
+ROOTFNS = ('gamma_one_root', 'gamma_two_root', 'gamma_three_root')
+
+
+def _free_at_endpoints(f):
+    """The code decides `oscillatory or not' from the sign of the root function at the concrete end points
+    eta = 0, 1 (values like sqrt(eps + 1e28) that only burden the solver).  In the symbolic run those two
+    values are arbitrary reals: the decision is nondeterministic, both branches are explored for every
+    input (an over-approximation).  Symbolic arguments (the brentq contract) reach the real function."""
+    def g(eta):
+        if isinstance(eta, SymReal):
+            return f(eta)
+        return current().fresh('endpoint')
+    g.__name__ = f.__name__
+    return g
+
+
 @contextlib.contextmanager
 def installed(m, num):
     saved = (m.quad, m.brentq, m.posx, m.tau, m.epsilon, m.jwant)
+    saved_roots = [getattr(m, n) for n in ROOTFNS]
     m.quad, m.brentq = num.quad, num.brentq
+    if num.symbolic:
+        for n, f in zip(ROOTFNS, saved_roots):
+            setattr(m, n, _free_at_endpoints(f))
     try:
         yield
     finally:
         m.quad, m.brentq, m.posx, m.tau, m.epsilon, m.jwant = saved
+        for n, f in zip(ROOTFNS, saved_roots):
+            setattr(m, n, f)
 
 
 def analyse(m, mk, which, args, probes, npieces=1, contract=True, edges=True):
